@@ -1286,13 +1286,19 @@ func EvalReduceFn(reduceFn ast.ApplyFn, rows []ast.ConstSubstList) (ast.Constant
 		}
 		return ast.Number(int64(numDistinct)), nil
 	case symbols.Avg.Symbol:
-		v := reduceFn.Args[0].(ast.Variable)
+		v, ok := reduceFn.Args[0].(ast.Variable)
+		if !ok {
+			return ast.Constant{}, fmt.Errorf("reducer %v expects a variable argument, got %v", reduceFn.Function, reduceFn.Args[0])
+		}
 		return evalAvg(rowsIter(v))
 
 	case symbols.Max.Symbol, symbols.FloatMax.Symbol, symbols.DurationMax.Symbol, symbols.TimeMax.Symbol,
 		symbols.Min.Symbol, symbols.FloatMin.Symbol, symbols.DurationMin.Symbol, symbols.TimeMin.Symbol,
 		symbols.Sum.Symbol, symbols.FloatSum.Symbol, symbols.DurationSum.Symbol:
-		v := reduceFn.Args[0].(ast.Variable)
+		v, ok := reduceFn.Args[0].(ast.Variable)
+		if !ok {
+			return ast.Constant{}, fmt.Errorf("reducer %v expects a variable argument, got %v", reduceFn.Function, reduceFn.Args[0])
+		}
 		return listReducers[reduceFn.Function.Symbol](rowsIter(v))
 	default:
 		return ast.Constant{}, fmt.Errorf("unknown reducer %v", reduceFn.Function)
